@@ -920,7 +920,12 @@ func genCtlCase(run *hx.Run, r *hx.Rng) {
 			}
 		case x < 35:
 			e.do(run, "badtimeout")
-		case x < 55 && len(e.ctrl.StoredInstances) > 0: // a timeout aimed at ANY stored instance (old, decided-created, running), around its round
+		case x < 42: // a long chain of genuine timeouts (reaches the cutoff round)
+			k := 3 + r.Intn(16)
+			for j := 0; j < k; j++ {
+				e.do(run, fmt.Sprintf("timeout h=%d r=%d", cur, roundOf(cur)))
+			}
+		case x < 62 && len(e.ctrl.StoredInstances) > 0: // a timeout aimed at ANY stored instance (old, decided-created, running), around its round
 			in := e.ctrl.StoredInstances[r.Intn(len(e.ctrl.StoredInstances))]
 			rr := uint64(in.State.Round)
 			switch r.Intn(4) {
@@ -932,11 +937,6 @@ func genCtlCase(run *hx.Run, r *hx.Rng) {
 				rr += uint64(1 + r.Intn(2))
 			}
 			e.do(run, fmt.Sprintf("timeout h=%d r=%d", in.State.Height, rr))
-		case x < 42: // a long chain of genuine timeouts (reaches the cutoff round)
-			k := 3 + r.Intn(16)
-			for j := 0; j < k; j++ {
-				e.do(run, fmt.Sprintf("timeout h=%d r=%d", cur, roundOf(cur)))
-			}
 		default:
 			h := cur
 			if r.Chance(30) {
